@@ -50,10 +50,10 @@ sim("C09", "events of a source are a subset of its interests, each bit means the
     "that the OS-level readiness the world reports is what Linux reports (world model), soundness/completeness through the probes.",
     "stream-state lattice (15 states) x 5 option sets x 16 masks with read/write/wait(0) probes; two-source layouts; random histories.",
     "Coq theorems (event-bit mapping) + state-lattice correspondence + probe monitor")
-sim("C10", "per-type constructor facts (HANDLE/STDOUT make no call and yield the caller's/child's descriptor; DISCARD/PATH open flags; PIPE ends by direction), a parent end exists only for PIPE, the regenerated installation order.",
-    "that descriptors 0/1/2 of the exec image refer to exactly the requested objects (the child-side theorem C11_child_image_descriptors shows the dup2/close-on-exec logic leaves only 0,1,2 and the exit handle open, not yet which object each refers to).",
+sim("C10", "THE CHILD SIDE FOR EVERY INHERITED TABLE (C10_child_image_objects): for any descriptor table, flags and limit, and whichever descriptors the three child ends are - also 0, 1 or 2 themselves in any permutation, also one descriptor for several streams - in any fault-free well-formed world, if the forked child reaches a successful exec then for each stream i in 0..2 the image has descriptor i open and it refers to the very object the child end chosen for stream i referred to at fork (through the closing loop, the F_DUPFD_CLOEXEC move of low child ends whose result is a free slot by a pigeonhole argument, the dup2/close-on-exec loop and the exit handle); per-type constructor facts (HANDLE/STDOUT make no call and yield the caller's/child's descriptor; DISCARD/PATH open flags; PIPE ends by direction), a parent end exists only for PIPE, the regenerated installation order.",
+    "the composition parent side -> child side (that the child end handed to process_start for stream i is the object the redirect option names) beyond the per-type constructor facts; injected faults inside the child; premise of the child theorem: the child ends are open descriptors other than the fork error pipe (a closed user handle whose number F_DUPFD re-uses is outside it).",
     "all 7x7x8 type combinations + shorthands with std descriptors open, and x the 7 closed-std layouts; closed parent FILE streams.",
-    "Coq theorems (redirect constructors) + exhaustive configuration correspondence + image monitor")
+    "Coq theorem over the whole child side of fork for all descriptor tables (object tracking through F_DUPFD/dup2; state-aware Hoare logic over the world model) + redirect constructor theorems + exhaustive configuration correspondence + image monitor")
 sim("C11", "THE CHILD SIDE FOR EVERY PARENT TABLE (C11_child_image_descriptors): for any descriptor table, flags, limit L bounding the table, child ends and error pipes, in any fault-free world, if the forked child reaches a successful exec every descriptor of the image is 0, 1, 2 or the exit handle, and in exec mode the child code never returns to its caller — through signal reset, mask, limit, the closing loop, moving low child ends away, the dup2 loop with close-on-exec handling, exit handle, chdir, environ, exec and every natural failure exit; the closing loop characterised pointwise for every table (C11_close_loop_all_tables) and shown to be what the monadic loop computes (state-aware Hoare triple); the regenerated keep list; get_max_fd.",
     "injected faults inside the child (a failed F_GETFD makes the code skip a close); that the parent-side invariants assumed of the table at fork (error pipes close-on-exec, all descriptors below the limit) hold — both decided by the tie's families.",
     "random descriptor tables incl. limit-1/limit-2/dense, limits 8..256, flags random, sibling handles, limit raised between starts, huge/infinite limits.",
